@@ -591,6 +591,7 @@ func smallAlphabet() []*Op {
 		{Kind: "remove", Type: "K0"},
 		{Kind: "remove", Type: "K1"},
 		{Kind: "removeKeyed", Type: "K1", Key: "k"},
+		{Kind: "removeKeyed", Type: "K1", KeyKind: "int1"}, // the int 1: no registration has that key (godi numbers group members with it)
 		{Kind: "modules", Mods: []*Node{
 			{Kind: "nil"},
 			leaf(&Op{Kind: "removeKeyed", Type: "K0", Key: "k"}),
@@ -609,7 +610,7 @@ func init() {
 		Rule: "cases are sequences of AddSingleton/AddScoped/AddTransient (plain, Name, Group, As, instance values, multi-return and Out-struct constructors, duplicates, nil constructor, Name+Group, As mismatch), " +
 			"Remove, RemoveKeyed, AddModules, Build and further edits after Build over 4 service types x keys {k,k2} x groups {g,h}; after EVERY step Contains/ContainsKeyed/Count/ToSlice are compared with a reference registry, " +
 			"a provider is built and every identity of the universe is resolved from a fresh scope (which constructors ran, which constructor produced each identity, group order), and every provider retained from an earlier Build step is re-queried. " +
-			"Exhaustive part: all sequences of length <=3 (quick) / <=4 (thorough) over a 15-op alphabet; random part: seeded state-aware sequences of length 20. " +
+			"Exhaustive part: all sequences of length <=3 (quick) / <=4 (thorough) over a 16-op alphabet; random part: seeded state-aware sequences of length 20. " +
 			"A case is non-trivial when it has an accepted registration and at least one rejected registration, effective removal or edit after Build; distinct = distinct op sequences.",
 		Shards: func(tier string) int { return 16 },
 		Run:    runC17,
